@@ -9,14 +9,15 @@ EXTENDS Naturals, Sequences, FiniteSets
 
 \* site -> [kind, span (the lint has a location), chain (which of own / parent / grandparent exist)]
 Sites == {"field_type", "nested_type", "param_type", "ret_type", "alias_target", "base", "link_def", "link_member", "link_op",
-          "link_enumerator", "incorrect_def", "incorrect_op", "malformed_def", "malformed_member", "dupfile"}
+          "link_enumerator", "incorrect_def", "incorrect_op", "incorrect_ret_void", "incorrect_ret_single", "incorrect_ret_tuple",
+          "malformed_def", "malformed_member", "dupfile"}
 KindOf(s) == CASE s \in {"field_type", "nested_type", "param_type", "ret_type", "alias_target", "base"} -> "Deprecated"
                [] s \in {"link_def", "link_member", "link_op", "link_enumerator"} -> "BrokenDocLink"
-               [] s \in {"incorrect_def", "incorrect_op"} -> "IncorrectDocComment"
+               [] s \in {"incorrect_def", "incorrect_op", "incorrect_ret_void", "incorrect_ret_single", "incorrect_ret_tuple"} -> "IncorrectDocComment"
                [] s \in {"malformed_def", "malformed_member"} -> "MalformedDocComment"
                [] s = "dupfile" -> "DuplicateFile"
 HasSpan(s) == s # "dupfile"
-HasParent(s) == s \in {"field_type", "nested_type", "param_type", "ret_type", "link_member", "link_op", "link_enumerator", "incorrect_op", "malformed_member"}
+HasParent(s) == s \in {"field_type", "nested_type", "param_type", "ret_type", "link_member", "link_op", "link_enumerator", "incorrect_op", "incorrect_ret_void", "incorrect_ret_single", "incorrect_ret_tuple", "malformed_member"}
 HasGrandparent(s) == s \in {"param_type", "ret_type"}
 Places == {"none", "cli", "cli_lower", "file_own", "file_other", "own", "parent", "grandparent", "sibling"}
 Applicable(s, p) == /\ (p = "parent" => HasParent(s)) /\ (p = "grandparent" => HasGrandparent(s))
